@@ -9,23 +9,23 @@ open SigModel.Crash
 /-! ### a rotation -/
 
 theorem rotateSteps_eq {w : W} (hne : w.fls ≠ []) :
-    rotateSteps w = [Step.sfmTrunc w.cur, .sfmWrite w.cur w.fls, .segmetaAppend w.cur w.fls] ++ openSteps (w.cur + 1) := by
+    rotateSteps w = [Step.sfmTmp w.cur w.fls, .sfmRename w.cur, .segmetaAppend w.cur w.fls] ++ openSteps (w.cur + 1) := by
   simp [rotateSteps, hne]
 
 /-- the segment is sealed: its line is in segmeta.json, the next directory does not exist yet -/
 theorem preopen_rotate {sl w fs} (I : Inv sl w fs) :
     PreOpen (sl ++ [(w.cur, w.fls)]) (w.cur + 1) w.nf
-      (run fs [Step.sfmTrunc w.cur, .sfmWrite w.cur w.fls, .segmetaAppend w.cur w.fls]) := by
-  have hon : ∀ s ∈ [Step.sfmTrunc w.cur, .sfmWrite w.cur w.fls], onSeg w.cur s = true := by
+      (run fs [Step.sfmTmp w.cur w.fls, .sfmRename w.cur, .segmetaAppend w.cur w.fls]) := by
+  have hon : ∀ s ∈ [Step.sfmTmp w.cur w.fls, .sfmRename w.cur], onSeg w.cur s = true := by
     intro s hs; simp at hs; rcases hs with rfl | rfl <;> simp [onSeg]
   have S := sameBut_run (cur := w.cur) _ fs hon
   have hseg := run_seg (cur := w.cur) _ fs hon
   simp only [List.foldl, applySeg] at hseg
-  have e3 : run fs [Step.sfmTrunc w.cur, .sfmWrite w.cur w.fls, .segmetaAppend w.cur w.fls]
-      = { run fs [Step.sfmTrunc w.cur, .sfmWrite w.cur w.fls] with
-          segmeta := (run fs [Step.sfmTrunc w.cur, .sfmWrite w.cur w.fls]).segmeta ++ [(w.cur, w.fls)] } := rfl
+  have e3 : run fs [Step.sfmTmp w.cur w.fls, .sfmRename w.cur, .segmetaAppend w.cur w.fls]
+      = { run fs [Step.sfmTmp w.cur w.fls, .sfmRename w.cur] with
+          segmeta := (run fs [Step.sfmTmp w.cur w.fls, .sfmRename w.cur]).segmeta ++ [(w.cur, w.fls)] } := rfl
   rw [e3]
-  generalize run fs [Step.sfmTrunc w.cur, .sfmWrite w.cur w.fls] = fs2 at S hseg
+  generalize run fs [Step.sfmTmp w.cur w.fls, .sfmRename w.cur] = fs2 at S hseg
   have F := I.frame
   have hle := F.dirs_le
   refine ⟨⟨?_, ?_, ?_, ?_, ?_, ?_, ?_⟩, ?_, ?_, ?_⟩
@@ -78,7 +78,7 @@ theorem inv_rotate {sl w fs} (I : Inv sl w fs) (hne : w.fls ≠ []) :
 
 /-- every proper cut of a rotation -/
 theorem rotate_prefix {sl w fs} (I : Inv sl w fs) (k : Nat) (hk : k < (rotateSteps w).length) :
-    Good w.nf none (isTrunc ((rotateSteps w).take k).getLast?) (run fs ((rotateSteps w).take k)) := by
+    Good w.nf none (run fs ((rotateSteps w).take k)) := by
   by_cases hne : w.fls = []
   · simp [rotateSteps, hne] at hk
   rw [rotateSteps_eq hne] at hk ⊢
@@ -89,32 +89,32 @@ theorem rotate_prefix {sl w fs} (I : Inv sl w fs) (k : Nat) (hk : k < (rotateSte
     · exact Or.inr (Or.inr (Or.inr ⟨k - 3, by omega, by omega⟩))
   rcases hcases with rfl | rfl | rfl | ⟨j, rfl, hj⟩
   · exact good_inv I
-  · -- .sfm truncated
-    have hon : ∀ s ∈ [Step.sfmTrunc w.cur], onSeg w.cur s = true := by
+  · -- .sfm.tmp written: the .sfm itself is untouched
+    have hon : ∀ s ∈ [Step.sfmTmp w.cur w.fls], onSeg w.cur s = true := by
       intro s hs; simp at hs; subst hs; simp [onSeg]
     have S := sameBut_run (cur := w.cur) _ fs hon
     have hseg := run_seg (cur := w.cur) _ fs hon
     simp only [List.foldl, applySeg] at hseg
     have F := I.frame.sameBut S I.cur_in
-    show Good w.nf none _ (run fs [Step.sfmTrunc w.cur])
-    refine good_a F (fun hh => ?_) I.ids (fun hl => ?_)
-    · rw [hseg] at hh; simp [Sfm.parsable] at hh
-    · simp [isTrunc] at hl
-  · -- .sfm rewritten with the same record
-    have hon : ∀ s ∈ [Step.sfmTrunc w.cur, .sfmWrite w.cur w.fls], onSeg w.cur s = true := by
+    show Good w.nf none (run fs [Step.sfmTmp w.cur w.fls])
+    refine good_b F (S.dirs ▸ I.cur_in) ?_ ?_ I.ids (Or.inl rfl)
+    · rw [hseg]; exact (inv_parsable I).2 hne
+    · rw [hseg]; exact segOK_congr I.cur_ok rfl rfl
+  · -- .sfm replaced by the same record
+    have hon : ∀ s ∈ [Step.sfmTmp w.cur w.fls, .sfmRename w.cur], onSeg w.cur s = true := by
       intro s hs; simp at hs; rcases hs with rfl | rfl <;> simp [onSeg]
     have S := sameBut_run (cur := w.cur) _ fs hon
     have hseg := run_seg (cur := w.cur) _ fs hon
     simp only [List.foldl, applySeg] at hseg
     have F := I.frame.sameBut S I.cur_in
-    show Good w.nf none _ (run fs [Step.sfmTrunc w.cur, .sfmWrite w.cur w.fls])
+    show Good w.nf none (run fs [Step.sfmTmp w.cur w.fls, .sfmRename w.cur])
     refine good_b F (S.dirs ▸ I.cur_in) ?_ ?_ I.ids (Or.inl rfl)
     · rw [hseg]; rfl
     · rw [hseg]; exact segOK_congr I.cur_ok rfl rfl
   · -- sealed; somewhere inside resetSegStore
     have P := preopen_rotate I
-    have ht : ([Step.sfmTrunc w.cur, .sfmWrite w.cur w.fls, .segmetaAppend w.cur w.fls] ++ openSteps (w.cur + 1)).take (3 + j)
-        = [Step.sfmTrunc w.cur, .sfmWrite w.cur w.fls, .segmetaAppend w.cur w.fls] ++ (openSteps (w.cur + 1)).take j := by
+    have ht : ([Step.sfmTmp w.cur w.fls, .sfmRename w.cur, .segmetaAppend w.cur w.fls] ++ openSteps (w.cur + 1)).take (3 + j)
+        = [Step.sfmTmp w.cur w.fls, .sfmRename w.cur, .segmetaAppend w.cur w.fls] ++ (openSteps (w.cur + 1)).take j := by
       rw [List.take_append, List.take_of_length_le (by simp)]
       simp
     rw [ht, run_append]
@@ -164,7 +164,7 @@ structure GoodH (w : W) (h : Hist) (k : Nat) (fs : FS) : Prop where
   nodup : (visible fs).Nodup
   torn : torn fs = []
   sound : ∀ f ∈ visible fs, f < w.nf ∨ f ∈ completedFrom w h k ∨ inflightFrom w h k = some f
-  complete : windowFrom w h k = false → ∀ f, (f < w.nf ∨ f ∈ completedFrom w h k) → f ∈ visible fs
+  complete : ∀ f, (f < w.nf ∨ f ∈ completedFrom w h k) → f ∈ visible fs
   fresh : ∀ s ∈ fs.dirs, s < nextSuffix fs
   untouched : ∀ s, s ∉ fs.dirs → fs.seg s = {}
 
@@ -174,15 +174,15 @@ theorem crashFrom_good : ∀ (h : Hist) (sl : List (Nat × List Nat)) (w : W) (f
   induction h with
   | nil =>
     intro sl w fs k I
-    have G : Good w.nf none false fs := good_inv I
+    have G : Good w.nf none fs := good_inv I
     refine ⟨G.nodup, G.torn, ?_, ?_, G.fresh, G.untouched⟩
     · intro f hf
       rcases G.sound f hf with h | h
       · exact Or.inl h
       · cases h
-    · intro _ f hf
+    · intro f hf
       rcases hf with h | h
-      · exact G.complete rfl f h
+      · exact G.complete f h
       · simp [completedFrom] at h
   | cons c h ih =>
     intro sl w fs k I
@@ -196,8 +196,6 @@ theorem crashFrom_good : ∀ (h : Hist) (sl : List (Nat × List Nat)) (w : W) (f
         simp only [completedFrom, if_pos hk]
       have hinf : inflightFrom w (c :: h) k = inflightFrom (next w c) h (k - (cmdSteps w c).length) := by
         simp only [inflightFrom, if_pos hk]
-      have hwin : windowFrom w (c :: h) k = windowFrom (next w c) h (k - (cmdSteps w c).length) := by
-        simp only [windowFrom, if_pos hk]
       rw [hcf]
       refine ⟨G.nodup, G.torn, ?_, ?_, G.fresh, G.untouched⟩
       · intro f hf
@@ -214,10 +212,9 @@ theorem crashFrom_good : ∀ (h : Hist) (sl : List (Nat × List Nat)) (w : W) (f
             by_cases hne : w.fls = [] <;> simpa [next, hne] using h1
         · right; left; exact List.mem_append_right _ h1
         · right; right; exact h1
-      · intro hw f hf
-        rw [hwin] at hw
+      · intro f hf
         rw [hcomp] at hf
-        apply G.complete hw
+        apply G.complete
         rcases hf with h1 | h1
         · left
           cases c with
@@ -236,8 +233,6 @@ theorem crashFrom_good : ∀ (h : Hist) (sl : List (Nat × List Nat)) (w : W) (f
         simp only [crashFrom, if_neg hk]
       have hcomp : completedFrom w (c :: h) k = [] := by
         simp only [completedFrom, if_neg hk]
-      have hwin : windowFrom w (c :: h) k = isTrunc ((cmdSteps w c).take k).getLast? := by
-        simp only [windowFrom, if_neg hk]
       rw [hcf]
       cases c with
       | fl ws =>
@@ -249,11 +244,10 @@ theorem crashFrom_good : ∀ (h : Hist) (sl : List (Nat × List Nat)) (w : W) (f
           rcases G.sound f hf with h1 | h1
           · exact Or.inl h1
           · right; right; rw [hinf]; exact h1
-        · intro hw f hf
-          rw [hwin] at hw
+        · intro f hf
           rw [hcomp] at hf
           rcases hf with h1 | h1
-          · exact G.complete hw f h1
+          · exact G.complete f h1
           · cases h1
       | ro =>
         have hinf : inflightFrom w (Cmd.ro :: h) k = none := by
@@ -264,11 +258,10 @@ theorem crashFrom_good : ∀ (h : Hist) (sl : List (Nat × List Nat)) (w : W) (f
           rcases G.sound f hf with h1 | h1
           · exact Or.inl h1
           · cases h1
-        · intro hw f hf
-          rw [hwin] at hw
+        · intro f hf
           rw [hcomp] at hf
           rcases hf with h1 | h1
-          · exact G.complete hw f h1
+          · exact G.complete f h1
           · cases h1
 
 /-! ### the crash at step `k` of a whole history -/
@@ -312,7 +305,7 @@ theorem crashAfter_good (h : Hist) (k : Nat) :
     let fs := crashAfter h k
     (visible fs).Nodup ∧ torn fs = [] ∧
     (∀ f ∈ visible fs, f ∈ completed h k ∨ inflight h k = some f) ∧
-    (inSfmWindow h k = false → ∀ f ∈ completed h k, f ∈ visible fs) ∧
+    (∀ f ∈ completed h k, f ∈ visible fs) ∧
     (∀ s ∈ fs.dirs, s < nextSuffix fs) ∧ (∀ s, s ∉ fs.dirs → fs.seg s = {}) := by
   intro fs
   by_cases hk : k < 3
@@ -322,14 +315,14 @@ theorem crashAfter_good (h : Hist) (k : Nat) :
       rw [List.take_append]
       have : k - (openSteps 0).length = 0 := by simp [openSteps]; omega
       rw [this, List.take_zero, List.append_nil]
-    have G : Good 0 none false fs := hfs ▸ open_prefix preopen_empty k hk
+    have G : Good 0 none fs := hfs ▸ open_prefix preopen_empty k hk
     have h0 : k - 3 = 0 := by omega
     refine ⟨G.nodup, G.torn, ?_, ?_, G.fresh, G.untouched⟩
     · intro f hf
       rcases G.sound f hf with h1 | h1
       · omega
       · cases h1
-    · intro _ f hf
+    · intro f hf
       simp [completed, h0, completedFrom_zero] at hf
   · have hfs : fs = crashFrom {} (run {} (openSteps 0)) h (k - 3) := by
       show run {} ((openSteps 0 ++ stepsFrom {} h).take k) = _
@@ -344,7 +337,7 @@ theorem crashAfter_good (h : Hist) (k : Nat) :
       · exact absurd h1 (Nat.not_lt_zero f)
       · exact Or.inl h1
       · exact Or.inr h1
-    · intro hw f hf
-      exact G.complete hw f (Or.inr hf)
+    · intro f hf
+      exact G.complete f (Or.inr hf)
 
 end SigModel.Lemmas.C07
